@@ -22,7 +22,7 @@ RULE = (
     "boots/time. (b) length sweep: GET responses and SET requests padded by 0..300 octets so "
     "that total message, scoped-PDU and PDU length each take every value in 100..300 in both "
     "directions (coverage measured and reported). (c) operations get, multiget, getnext, "
-    "bulkget, set, multiset, walk, bulkwalk. Monitors: the agent's verdict per request (all "
+    "bulkget, set, multiset, walk, bulkwalk. (d) every engine id length 5..32 on every user. Monitors: the agent's verdict per request (all "
     "usmStats counters 0 apart from the one discovery unknownEngineID; digest verified over "
     "the datagram exactly as sent), msgFlags == level | reportable for confirmed-class PDUs, "
     "engine id/boots/time == discovered values, user name; client outcome == database truth. "
@@ -32,7 +32,7 @@ ASSUMPTIONS = [
     "the reference agent (vf/agent.py, vf/ber.py) is the independent RFC 3414 implementation; its key localisation and HMAC are self-checked on RFC 3414 A.3 / RFC 2202 vectors at start",
     "privacy uses the rig's invertible transform on both sides (C11 owns the privacy plug-in contract)",
 ]
-REQUIRED_MONITORS = ("requests_verified_by_agent", "responses_accepted_correct", "reportable_flag_checked", "password_lengths_swept", "length_sweep_exchanges")
+REQUIRED_MONITORS = ("requests_verified_by_agent", "responses_accepted_correct", "reportable_flag_checked", "password_lengths_swept", "length_sweep_exchanges", "engine_id_lengths_swept")
 
 BASE = (1, 3, 6, 1, 2, 1, 1)
 QUICK_PW = (1, 2, 3, 7, 8, 13, 16, 31, 64, 100, 129, 255, 257, 300)
@@ -295,6 +295,16 @@ def run(R):
         if not R.mine(k):
             continue
         one_world(R, level, "ops", 0, ops=("get", "multiget", "getnext", "bulkget", "set", "multiset", "walk", "bulkwalk"), pad=3)
+    # (d) every legal engine id length 5..32 (RFC 3411 SnmpEngineID), on every level
+    for level in levels4:
+        for n in range(5, 33):
+            k += 1
+            if not R.mine(k):
+                continue
+            rng = R.rng("eidlen", n, level)
+            eng = bytes([0x80]) + bytes(rng.getrandbits(8) for _ in range(n - 1))
+            one_world(R, level, "eidlen", n, engine_id=eng, ops=("get", "set"))
+            R.mon["engine_id_lengths_swept"] += 1
     if R.shard == 0:
         for level in levels4:
             reboot_scenario(R, level)
